@@ -114,11 +114,42 @@ def run(ctx, P):
             host.calculate()
         work.append(measure(lambda: host.append(new)))
     ctx.observe("work(lines,calcs) per length", [list(w) for w in work])
-    base_lines, base_calcs = work[0]
-    for n, (ln, cc) in zip(lengths[1:], work[1:]):
-        # slack covers value-dependent branches on the concrete part of the history (smoothed state differs slightly)
-        ctx.require(f"lines(append at n0+{n - lengths[0]}) <= lines(n0)+slack", ln <= base_lines + SLACK_LINES, f"n0={lengths[0]}: {base_lines} lines; n={n}: {ln} lines")
-        ctx.require(f"calculations(append at n0+{n - lengths[0]}) <= calculations(n0)", cc <= base_calcs + 1, f"n0: {base_calcs} _calculate_reading calls; n={n}: {cc}")
+    ctx.record([list(w) for w in work])
+    if "W0" in P:
+        # replay of a counterexample found by finalize(): W0/C0 = maximum over ALL paths at n0 (from the symbolic run)
+        for n, (ln, cc) in zip(lengths[1:], work[1:]):
+            ctx.require(LABEL_LINES, ln <= P["W0"] + SLACK_LINES, f"max over all inputs at n0={lengths[0]}: {P['W0']} lines; n={n}: {ln} lines")
+            ctx.require(LABEL_CALCS, cc <= P["C0"], f"max at n0: {P['C0']} _calculate_reading calls; n={n}: {cc}")
+
+
+LABEL_LINES = "lines(append at n) <= max-over-all-inputs lines(append at n0) + slack"
+LABEL_CALCS = "calculations(append at n) <= max-over-all-inputs calculations(append at n0)"
+
+
+def finalize(col, obd, replayer):
+    """cross-path obligation: the work at every longer history, on every path, is bounded by the maximum over all
+    paths (= all values of the symbolic candles) at n0 - a constant that does not depend on n."""
+    if not col.records:
+        return
+    W0 = max(p[0][0] for _, p in col.records)
+    C0 = max(p[0][1] for _, p in col.records)
+    for inputs, work in col.records:
+        for (ln, cc) in work[1:]:
+            col.asserts += 2
+            bad = [l for l, c in ((LABEL_LINES, ln > W0 + SLACK_LINES), (LABEL_CALCS, cc > C0)) if c]
+            if not bad:
+                col.discharged += 2
+                continue
+            for label in bad:
+                if label in col.reproduced:
+                    continue
+                sc = dict(label=label, detail=f"work per length {work}, max at n0 over all paths: {W0} lines / {C0} calculations", inputs=inputs, params_extra=dict(W0=W0, C0=C0))
+                ok, out, path = replayer(sc)
+                if ok:
+                    col.reproduced[label] = (sc, out, path)
+                else:
+                    col.unreproduced[label] = col.unreproduced.get(label, 0) + 1
+                    col.candidates.setdefault(label, []).append(sc)
 
 
 META = dict(
